@@ -51,7 +51,43 @@ def make_config(rng, profile, tier):
     nseg = rng.randrange(0, 3) if helpers in ('seg', 'gas_seg') else 0
     if helpers == 'seg' and nseg == 0:
         nseg = 1
-    top_terms = [['cat', i] for i in range(ncat)]
+    # catalogs that already sit inside a member of another catalog appear at the top level only half of the
+    # time: their controller must then be found through a member that may not be the selected one
+    nested = set()
+
+    def scan(n):
+        if n[0] == 'cat':
+            nested.add(n[1])
+        for c_ in n[1:]:
+            if isinstance(c_, list) and c_ and isinstance(c_[0], str):
+                scan(c_)
+    for c_ in cats:
+        for m_ in c_['members']:
+            scan(m_)
+    reach = set()
+
+    def close(i):
+        if i in reach:
+            return
+        reach.add(i)
+        for m_ in cats[i]['members']:
+            sub = set()
+            stack = [m_]
+            while stack:
+                n = stack.pop()
+                if n[0] == 'cat':
+                    sub.add(n[1])
+                stack += [c2 for c2 in n[1:] if isinstance(c2, list) and c2 and isinstance(c2[0], str)]
+            for j in sub:
+                close(j)
+    tops = [i for i in range(ncat) if i not in nested or rng.random() < 0.5]
+    for i in tops:
+        close(i)
+    for i in range(ncat):
+        if i not in reach:
+            tops.append(i)
+            close(i)
+    top_terms = [['cat', i] for i in tops]
     rng.shuffle(top_terms)
     top = top_terms[0]
     for t in top_terms[1:]:
@@ -356,7 +392,14 @@ class Session:
             names = sorted(ops)
             nm = names[a[0] % len(names)]
             step = a[1]
-            start = Configuration.from_string(self.model_id())
+            start_model = dict(self.model)
+            if a[0] % 2:
+                # the operator is given a configuration that is not the one the formula currently shows
+                srng = random.Random(a[0])
+                start_model = {c: srng.randrange(len(self.member_names[c])) for c in self.used_ctrls}
+                ctx.probe('operator applied to a configuration other than the current one')
+            start = Configuration.from_string(self.model_id(start_model))
+            self.model = start_model
             random.seed(a[0])
             new, n = ops[nm](start, step)
             nid = new.get_string_id()
